@@ -236,7 +236,7 @@ def run_child(ctx, binary, test, items, tag, timeout, mem_gb=8, key="items", ext
                 now = time.time()
                 if sz != last_size:
                     last_size, last_change = sz, now
-                elif now - last_change > timeout:
+                elif now - last_change > (timeout if sz > 0 else max(timeout, 900)):     # start-up (nothing written yet) gets more time
                     timed_out = True
                     p.kill()
                     p.wait()
